@@ -644,6 +644,16 @@ func c15WS(w *W) {
 		}
 		w.Probe("ws-foreign-subprotocol-refused")
 		good := wsDialer(info.SelfName + ".sp.nanomsg.org")
+		switch w.Choose(simrt.SProg, 4) {
+		case 1:
+			// a client may offer a preference list (RFC 6455 4.1): the SP
+			// sub-protocol among others, in any position
+			good.Subprotocols = []string{info.SelfName + ".sp.nanomsg.org", "x-other.example"}
+			w.Probe("ws-client-offers-several-subprotocols")
+		case 2:
+			good.Subprotocols = []string{"x-other.example", info.SelfName + ".sp.nanomsg.org", "y-other.example"}
+			w.Probe("ws-client-offers-several-subprotocols")
+		}
 		c, _, err := good.Dial(url, nil)
 		if err != nil {
 			w.Failf("C15/ws-conforming-client-refused", "%s listener refused a client offering %s.sp.nanomsg.org: %v", kind, info.SelfName, err)
